@@ -390,7 +390,28 @@ def _query(rec, s, members, rng, info):
                     rec.ok("radius-getters")
 
 
+def _with_straight_corners(rng, xy):
+    """The same region with one or two extra vertices *on* its edges (a straight corner, which Polygon accepts): every ball
+    of the region is what it was; only the listing has corners that do not turn."""
+    xy = np.asarray(xy, float)
+    out = []
+    picks = set(int(x) for x in rng.choice(len(xy), size=min(len(xy), int(rng.integers(1, 3))), replace=False))
+    for i in range(len(xy)):
+        out.append(xy[i])
+        if i in picks:
+            t = float(rng.choice([0.5, 0.25, 0.75]))
+            out.append(xy[i] + t * (xy[(i + 1) % len(xy)] - xy[i]))
+    return np.array(out)
+
+
 def _polygon_shape(rng):
+    xy, kind = _polygon_shape0(rng)
+    if kind in ("regular", "rectangle", "kite", "triangle", "tangential", "cyclic-irregular") and rng.random() < 0.25:
+        return _with_straight_corners(rng, xy), "simple-" + kind + "-with-straight-corners"
+    return xy, kind
+
+
+def _polygon_shape0(rng):
     """2-D vertex list (CCW) with known circle character."""
     u = rng.random()
     if u < 0.14:
@@ -536,7 +557,7 @@ def run_case(i, rng, rec, tier, state):
         if rng.random() < 0.6:
             a_, _, _ = geom.poly2d_moments(xy)
             # normal about which the listed order is (counter-)clockwise as chosen by ``flip``
-            pn = np.cross(V[1] - V[0], V[-1] - V[0])
+            pn = sum(np.cross(V[t] - V[0], V[t + 1] - V[0]) for t in range(1, len(V) - 1))      # area vector (no corner singled out)
             E0 = geom.poly3d_exact(V, pn)
             nrm = pn / np.linalg.norm(pn) * (1 if E0["signed_area"] > 0 else -1)
             if rng.random() < 0.4:
